@@ -280,7 +280,7 @@ fn any_extra() -> Option<(IterationStamp, bool)> {
     if kani::any() { Some((any_stamp(), kani::any())) } else { None }
 }
 
-// @verif prop=C25 obl=O2 tier=quick bounds="all values of every edge field (ingredient <= 0x7FFF_FFFF, index < Id::MAX_U32, any generation, both kinds); exactly 0 edges; both derived kinds"
+// @verif prop=C25,C23 obl=O2 tier=quick bounds="all values of every edge field (ingredient <= 0x7FFF_FFFF, index < Id::MAX_U32, any generation, both kinds); exactly 0 edges; both derived kinds"
 // @+ encodes="OriginAndExtra::derived, OriginAndExtra::derived_untracked, OriginAndExtra::new_derived_with_kind, OriginAndExtra::allocate_derived_with_header, SliceWithHeader::allocate, SliceWithHeaderBuilder::push/extend/finish, PackedQueryEdge::new, PackedQueryEdge::edge, OriginAndExtra::origin, SliceWithHeader::slice, QueryEdges::iter, QueryEdgeIter::next/len, QueryEdge::key, QueryEdge::kind, OriginAndExtra::drop"
 /// C25-O2: a stored origin with 0 symbolic edges (no extra data) decodes to exactly the same edges, order and kinds; compact layout iff every edge fits; freed on drop.
 #[kani::proof]
@@ -296,7 +296,7 @@ fn c25_o2_fwd_n0() {
     drop(origin);
 }
 
-// @verif prop=C25 obl=O2 tier=quick bounds="all values of every edge field (ingredient <= 0x7FFF_FFFF, index < Id::MAX_U32, any generation, both kinds); exactly 1 edges; both derived kinds"
+// @verif prop=C25,C23 obl=O2 tier=quick bounds="all values of every edge field (ingredient <= 0x7FFF_FFFF, index < Id::MAX_U32, any generation, both kinds); exactly 1 edges; both derived kinds"
 // @+ encodes="OriginAndExtra::derived, OriginAndExtra::derived_untracked, OriginAndExtra::new_derived_with_kind, OriginAndExtra::allocate_derived_with_header, SliceWithHeader::allocate, SliceWithHeaderBuilder::push/extend/finish, PackedQueryEdge::new, PackedQueryEdge::edge, OriginAndExtra::origin, SliceWithHeader::slice, QueryEdges::iter, QueryEdgeIter::next/len, QueryEdge::key, QueryEdge::kind, OriginAndExtra::drop"
 /// C25-O2: a stored origin with 1 symbolic edges (no extra data) decodes to exactly the same edges, order and kinds; compact layout iff every edge fits; freed on drop.
 #[kani::proof]
@@ -313,7 +313,7 @@ fn c25_o2_fwd_n1() {
     drop(origin);
 }
 
-// @verif prop=C25 obl=O2 tier=quick bounds="all values of every edge field (ingredient <= 0x7FFF_FFFF, index < Id::MAX_U32, any generation, both kinds); exactly 2 edges; both derived kinds"
+// @verif prop=C25,C23 obl=O2 tier=quick bounds="all values of every edge field (ingredient <= 0x7FFF_FFFF, index < Id::MAX_U32, any generation, both kinds); exactly 2 edges; both derived kinds"
 // @+ encodes="OriginAndExtra::derived, OriginAndExtra::derived_untracked, OriginAndExtra::new_derived_with_kind, OriginAndExtra::allocate_derived_with_header, SliceWithHeader::allocate, SliceWithHeaderBuilder::push/extend/finish, PackedQueryEdge::new, PackedQueryEdge::edge, OriginAndExtra::origin, SliceWithHeader::slice, QueryEdges::iter, QueryEdgeIter::next/len, QueryEdge::key, QueryEdge::kind, OriginAndExtra::drop"
 /// C25-O2: a stored origin with 2 symbolic edges (no extra data) decodes to exactly the same edges, order and kinds; compact layout iff every edge fits; freed on drop.
 #[kani::proof]
@@ -718,7 +718,7 @@ fn clear_edges_case<const N: usize>(raw: [RawEdge; N], extra: Option<(IterationS
     drop(origin);
 }
 
-// @verif prop=C25 obl=O3 tier=quick bounds="all values of 2 edges; extra data present (symbolic stamp/flag); both derived kinds"
+// @verif prop=C25,C23 obl=O3 tier=quick bounds="all values of 2 edges; extra data present (symbolic stamp/flag); both derived kinds"
 // @+ encodes="OriginAndExtra::clear_edges, OriginAndExtra::extra_mut, QueryRevisionsExtraInner::empty, OriginAndExtra::new_derived_with_kind, OriginAndExtra::drop"
 /// C25-O3: clearing the edges of a 2-edge origin keeps the origin kind and the extra data and leaves no edge.
 #[kani::proof]
@@ -727,7 +727,7 @@ fn c25_o3_clear_edges_n2_extra() {
     clear_edges_case::<2>([RawEdge::any(), RawEdge::any()], Some((any_stamp(), kani::any())));
 }
 
-// @verif prop=C25 obl=O3 tier=quick bounds="all values of 1 edge; no extra data; both derived kinds"
+// @verif prop=C25,C23 obl=O3 tier=quick bounds="all values of 1 edge; no extra data; both derived kinds"
 // @+ encodes="OriginAndExtra::clear_edges, OriginAndExtra::new_derived_with_kind, OriginAndExtra::drop"
 /// C25-O3: clearing the edges of a 1-edge origin without extra data.
 #[kani::proof]
@@ -775,7 +775,7 @@ fn c25_o3_insert_extra_keeps_edges() {
 }
 
 
-// @verif prop=C25 obl=O3 tier=quick bounds="all values: every valid assigning key; with and without inserted extra data"
+// @verif prop=C25,C23 obl=O3 tier=quick bounds="all values: every valid assigning key; with and without inserted extra data"
 // @+ encodes="OriginAndExtra::assigned, OriginAndExtra::assigned_with_extra, OriginAndExtra::get_or_insert_extra, OriginAndExtra::origin, OriginAndExtra::extra, OriginAndExtra::drop"
 /// C25-O3: an assigned origin returns the assigning key, also after extra data is inserted.
 #[kani::proof]
